@@ -241,6 +241,10 @@ class World(object):
 
 
 def setup_world():
+    # a process that has been up for a while: the process-wide request counter crosses 2**32 during the first work items
+    import itertools as _it
+    import clastic.application as _ca
+    _ca._REQ_ID_ITER = _it.count(2 ** 32 - 400)
     w = World()
     repo = common.REPO + '/clastic/'
     here = os.path.abspath(__file__).replace('.pyc', '.py')
